@@ -12,5 +12,7 @@ INVARIANT LawTrailing
 INVARIANT LawPtr
 INVARIANT LawOpt
 INVARIANT LawBitmap
+INVARIANT LawSvcBuilder
+INVARIANT LawTxtBuilder
 INVARIANT LawImplEq
 CHECK_DEADLOCK FALSE
